@@ -227,15 +227,15 @@ pub fn decompress_literals(
         let jump1 = source[0] as usize + ((source[1] as usize) << 8);
         let jump2 = jump1 + source[2] as usize + ((source[3] as usize) << 8);
         let jump3 = jump2 + source[4] as usize + ((source[5] as usize) << 8);
+        bytes_read += 6;
+        let source = &source[6..];
+
         if source.len() < jump3 {
             return Err(err::MissingBytesForLiterals {
                 got: source.len(),
                 needed: jump3,
             });
         }
-
-        bytes_read += 6;
-        let source = &source[6..];
 
         //decode 4 streams
         let stream1 = &source[..jump1];
